@@ -20,7 +20,7 @@ ASSUMPTIONS = [
     "temporary upload names (*.tmp) are counted, not judged",
 ]
 MONITORS = "store auditor after every step and inside a post-hook on HashFileDB.add (audits the receiving store after every add call)"
-REQUIRED_COUNTERS = ["inode_only_swaps", "persistent_workspace_steps", "dirs_with_several_large_files", "steps", "audits_after_step", "audits_after_add", "objects_rehashed", "dir_objects_reencoded", "op/stage-dir", "op/stage-file",
+REQUIRED_COUNTERS = ["migrations_followed_through_a_callback", "stores_opened_through_cwd_relative_path", "downloads_failing_half_way", "inode_only_swaps", "persistent_workspace_steps", "dirs_with_several_large_files", "steps", "audits_after_step", "audits_after_add", "objects_rehashed", "dir_objects_reencoded", "op/stage-dir", "op/stage-file",
                      "op/upload-stage", "op/add", "op/transfer", "op/save", "op/migrate", "op/gc", "staged_directory_ids_checked", "restaged_workspace_ids_checked", "saves_over_two_data_roots", "op/checkout", "op/verify-rotten", "migrations_rerun", "op/pws-stage", "op/pws-edit", "op/pws-stage-only", "local_mode_checks"]
 
 
@@ -94,15 +94,20 @@ def run_shard(ctx):
                     algo = rng.choice(["md5", "md5", "md5", "md5-dos2unix", "sha256", "blake3"]) if i else rng.choice(["md5", "md5", "md5-dos2unix"])
                     root = os.path.join(d, f"store{i}")
                     # stores are sometimes opened through a legal non-canonical spelling of their path
-                    spelling = rng.choice(["canonical"] * 4 + ["trailing-slash", "double-slash", "dot"])
-                    opened = {"canonical": root, "trailing-slash": root + "/", "double-slash": d + "//" + f"store{i}", "dot": d + "/./" + f"store{i}"}[spelling]
+                    spelling = rng.choice(["canonical"] * 4 + ["trailing-slash", "double-slash", "dot", "cwd-relative"])
+                    opened = {"canonical": root, "trailing-slash": root + "/", "double-slash": d + "//" + f"store{i}", "dot": d + "/./" + f"store{i}",
+                              "cwd-relative": f"store{i}"}[spelling]
                     if spelling != "canonical":
                         res.count("stores_opened_through_non_canonical_path")
+                    if spelling == "cwd-relative":
+                        # named relative to the process's current directory, which stays put for the whole history (restored by the caller)
+                        os.chdir(d)
+                        res.count("stores_opened_through_cwd_relative_path")
                     odb = env.odb_of_class(cls, opened, state=state if rng.random() < 0.7 else None, hash_name=algo)
                     st = {"name": f"s{i}", "cls": cls, "algo": algo, "root": root, "odb": odb}
                     stores.append(st)
                     cur["stores"][os.path.abspath(root)] = st
-                pool = [gen.content(rng, big=0.02) for _ in range(4)] + [b"", b"a\r\nb\r\n", b"a\nb\n"]
+                pool = [gen.content(rng, big=0.02) for _ in range(4)] + [b"", b"a\r\nb\r\n", b"a\nb\n", b"a line of CRLF text\r\n" * rng.randrange(30, 400)]
                 nws = [0]
                 generated = {}  # workspace path -> generated {key: bytes} (filled in below, big files included)
 
@@ -289,7 +294,18 @@ def run_shard(ctx):
                             gc(odb, [env.HI(algo, o) for o in objs_of(st) if rng.random() < 0.7], shallow=rng.random() < 0.5)
                         else:
                             dst = rng.choice(others)
-                            n = migrate(prepare(odb, dst["odb"]))
+                            mkw = {}
+                            if rng.random() < 0.4:
+                                # the caller follows the re-hashing through a progress callback of its own (one that hands out real children)
+                                from fsspec.callbacks import Callback as _CB
+
+                                class Following(_CB):
+                                    def branched(self, path_1, path_2, **kwargs):
+                                        return Following()
+
+                                mkw = {"callback": Following()}
+                                res.count("migrations_followed_through_a_callback")
+                            n = migrate(prepare(odb, dst["odb"], **mkw))
                             rec += [dst["name"], dst["algo"], n]
                             if rng.random() < 0.5:
                                 # the migration is run again in the same process (idempotent re-run, possibly after the source grew)
@@ -389,4 +405,10 @@ def run_shard(ctx):
                 env.reset_staging()
                 ctx.drop(d)
 
-            ctx.guard(case, one)
+            def one_in_place(one=one):
+                try:
+                    one()
+                finally:
+                    os.chdir("/")
+
+            ctx.guard(case, one_in_place)
